@@ -327,6 +327,353 @@ def get_responder_any_length(v):
         v.cover('404')
 
 
+# ---------------------------------------------------------------------------
+# LIFO tables: add_sink / add_static_route / _update_sink_and_static_routes
+#
+# Ghost view: `_sinks` and `_static_routes` are python lists of ARBITRARY length (z3 Seq of entry
+# identities).  One registration step maps (S, T) to ([e] ++ S, T) resp. (S, [e] ++ T) and rebuilds
+# the combined table as S' ++ T' (sink_before_static_route) or T' ++ S'.  By induction over the
+# registration history, from the empty tables of __init__: each table is newest-first.
+
+
+def _same_value(a, b):
+    import re
+
+    if a is b:
+        return True
+    if type(a) is type(b) and isinstance(a, (bool, int, str, re.Pattern)):
+        return a == b
+    if isinstance(a, tuple) and isinstance(b, tuple) and len(a) == len(b):
+        return all(_same_value(x, y) for x, y in zip(a, b))
+    return False
+
+
+class World:
+    """Identities of the entries created while the subject runs (python value <-> z3 Int)."""
+
+    def __init__(self):
+        self.vals = []
+
+    def ident(self, x):
+        import z3
+
+        for k, y in enumerate(self.vals):
+            if _same_value(x, y):
+                return z3.IntVal(-(k + 1))
+        self.vals.append(x)
+        return z3.IntVal(-len(self.vals))
+
+
+@stubclass
+class GList:
+    """A python list (or, frozen, a tuple) of opaque entries: arbitrary length, arbitrary content."""
+
+    def __init__(self, world, seq, frozen=False):
+        self.w = world
+        self.seq = seq
+        self.frozen = frozen
+
+    @staticmethod
+    def fresh(v, world, name):
+        import z3
+
+        n = v.int('len_' + name, 0)
+        s = v.ctx.fresh_const(name, z3.SeqSort(z3.IntSort()))
+        v.assume(_zb(z3.Length(s) == n.t))
+        return GList(world, s)
+
+    def insert(self, i, x):
+        import z3
+
+        assert not self.frozen
+        n = z3.Length(self.seq)
+        i = i.t if hasattr(i, 't') else z3.IntVal(i)
+        pos = z3.If(i < 0, z3.If(n + i < 0, 0, n + i), z3.If(i > n, n, i))
+        self.seq = z3.simplify(z3.Concat(z3.SubSeq(self.seq, 0, pos), z3.Unit(self.w.ident(x)), z3.SubSeq(self.seq, pos, n - pos)))
+
+    def append(self, x):
+        import z3
+
+        assert not self.frozen
+        self.seq = z3.simplify(z3.Concat(self.seq, z3.Unit(self.w.ident(x))))
+
+    def __pyvc_add__(self, o):
+        import z3
+
+        if not isinstance(o, GList) or o.frozen != self.frozen:
+            from pyvc.core import Unreached
+
+            raise Unreached('list + non-list')
+        return GList(self.w, z3.simplify(z3.Concat(self.seq, o.seq)), self.frozen)
+
+    def __pyvc_len__(self):
+        import z3
+        from pyvc.core import mk_int
+
+        return mk_int(z3.Length(self.seq))
+
+
+def _zb(t):
+    from pyvc.core import mk_bool
+
+    return mk_bool(t)
+
+
+def _tables_setup(reg, ex):
+    import builtins
+    import inspect
+
+    from pyvc import models
+
+    base_tuple = models.MODELS[id(builtins.tuple)]
+
+    def m_tuple(I, x=()):
+        if isinstance(x, GList):
+            return GList(x.w, x.seq, frozen=True)
+        return base_tuple(I, x)
+
+    reg.add_model(builtins.tuple, m_tuple)
+    reg.add_model(inspect.iscoroutinefunction, lambda I, f: f.is_coro if isinstance(f, Sink) else inspect.iscoroutinefunction(f))
+    # callee contracts (falcon.util): opaque predicates / wrappers over the opaque sink
+    reg.stubs['falcon.util.misc:is_python_func'] = lambda I, f: f.is_py
+    reg.stubs['falcon.util.sync:_should_wrap_non_coroutines'] = lambda I: I.ctx.ghost['wrap_env']
+    reg.stubs['falcon.util.sync:wrap_sync_to_async'] = lambda I, f, threadsafe=None: Wrapped(f)
+
+    def static_init(I, self, prefix, directory, downloadable=False, fallback_filename=None):
+        self._fields['init_args'] = (prefix, directory, downloadable, fallback_filename)
+
+    reg.stubs['falcon.routing.static:StaticRoute.__init__'] = static_init
+
+
+@stubclass
+class Sink:
+    def __init__(self, is_coro, is_py):
+        self.is_coro = is_coro
+        self.is_py = is_py
+
+
+@stubclass
+class Wrapped:
+    def __init__(self, inner):
+        self.inner = inner
+
+
+def mk_sink(v):
+    """An arbitrary sink callable: coroutine function or not; python function or native callable."""
+    is_coro = bool(v.choose(2, 'sink-is-coroutine-function?'))
+    is_py = bool(v.choose(2, 'sink-is-python-function?'))
+    if not v.concrete:
+        return Sink(is_coro, is_py), is_coro, is_py
+    if is_coro:
+        async def sink(req, resp, **kw):
+            pass
+    elif is_py:
+        def sink(req, resp, **kw):
+            pass
+    else:
+        sink = print  # a callable that is not a python function
+        is_py = False
+    return sink, is_coro, is_py
+
+
+class Tables:
+    """Builds an app with arbitrary tables and states the post-condition of one registration step."""
+
+    def __init__(self, v, asgi):
+        self.v = v
+        self.asgi = asgi
+        self.sbs = v.bool('sink_before_static_route')
+        if v.concrete:
+            nS, nT = v.int('len_S', 0), v.int('len_T', 0)
+            self.S0 = [Tok('old-sink-entry%d' % i) for i in range(nS)]
+            self.T0 = [Tok('old-static-entry%d' % i) for i in range(nT)]
+            S, T = list(self.S0), list(self.T0)
+            self.world = None
+        else:
+            self.world = World()
+            S = GList.fresh(v, self.world, 'S')
+            T = GList.fresh(v, self.world, 'T')
+            self.S0, self.T0 = S.seq, T.seq
+        self.stale = Tok('stale-combined-table')
+        self.app = app_obj(v, asgi, _sinks=S, _static_routes=T, _sink_before_static_route=self.sbs, _sink_and_static_routes=self.stale)
+
+    # sequences as the specification sees them (z3 Seq term | python list)
+    def now(self, field):
+        x = self.v.get(self.app, field)
+        if self.v.concrete:
+            return list(x) if isinstance(x, (list, tuple)) else x
+        return x.seq if isinstance(x, GList) else x
+
+    def is_kind(self, field, frozen):
+        x = self.v.get(self.app, field)
+        if self.v.concrete:
+            return isinstance(x, tuple if frozen else list)
+        return isinstance(x, GList) and x.frozen == frozen
+
+    def unit(self, e):
+        import z3
+
+        return [e] if self.v.concrete else z3.Unit(self.world.ident(e))
+
+    def cat(self, a, b):
+        import z3
+
+        return a + b if self.v.concrete else z3.Concat(a, b)
+
+    def eq(self, a, b):
+        if self.v.concrete:
+            return isinstance(a, list) and len(a) == len(b) and all(_same_value(x, y) for x, y in zip(a, b))
+        import z3
+
+        if not z3.is_expr(a):
+            return False
+        return _zb(a == b)
+
+    def combined(self, S, T):
+        return Ite(self.sbs, True, False) and None  # placeholder, see check_combined
+
+    def check_step(self, S1, T1):
+        """S1/T1: the expected tables after the step (spec side)."""
+        v = self.v
+        v.check('sinks-table-newest-first', self.is_kind('_sinks', False) and self.eq(self.now('_sinks'), S1))
+        v.check('static-table-newest-first', self.is_kind('_static_routes', False) and self.eq(self.now('_static_routes'), T1))
+        if not self.is_kind('_sink_and_static_routes', True):
+            v.check('combined-table-is-sinks-and-statics-in-configured-order', False)
+            return
+        C = self.now('_sink_and_static_routes')
+        if self.sbs:  # forks
+            v.check('combined-table-is-sinks-and-statics-in-configured-order', self.eq(C, self.cat(S1, T1)))
+            v.cover('sinks-first')
+        else:
+            v.check('combined-table-is-sinks-and-statics-in-configured-order', self.eq(C, self.cat(T1, S1)))
+            v.cover('statics-first')
+
+    def check_untouched(self):
+        v = self.v
+        v.check('rejected-registration-leaves-tables-untouched',
+                And(self.eq(self.now('_sinks'), self.S0), self.eq(self.now('_static_routes'), self.T0),
+                    v.get(self.app, '_sink_and_static_routes') is self.stale))
+
+
+SINK_PREFIXES = [None, r'/api/(?P<version>v\d+)/', 'compiled']
+
+
+def add_sink(v):
+    import os
+    import re
+
+    asgi = v.choose(2, 'asgi-app?')
+    t = Tables(v, asgi)
+    sink, is_coro, is_py = mk_sink(v)
+    wrap_env = bool(v.choose(2, 'FALCON_ASGI_WRAP_NON_COROUTINES?')) if asgi else False
+    pk = v.choose(3, 'prefix-kind')
+    prefix = re.compile(r'/files/(?P<name>.+)') if pk == 2 else SINK_PREFIXES[pk]
+    args = (sink,) if prefix is None else (sink, prefix)
+    if v.concrete:
+        saved = os.environ.pop('FALCON_ASGI_WRAP_NON_COROUTINES', None)
+        if wrap_env:
+            os.environ['FALCON_ASGI_WRAP_NON_COROUTINES'] = 'Y'
+        try:
+            out = v.call(t.app, *args, target=(AAPP if asgi else APP) + '.add_sink')
+        finally:
+            os.environ.pop('FALCON_ASGI_WRAP_NON_COROUTINES', None)
+            if saved is not None:
+                os.environ['FALCON_ASGI_WRAP_NON_COROUTINES'] = saved
+    else:
+        v.ctx.ghost['wrap_env'] = wrap_env
+        out = v.call(t.app, *args, target=(AAPP if asgi else APP) + '.add_sink')
+
+    CompatibilityError = v.real('falcon.errors:CompatibilityError')
+    if asgi:
+        rejected = (not is_coro) and is_py and not wrap_env
+        wrapped = (not is_coro) and is_py and wrap_env
+    else:
+        rejected = is_coro
+        wrapped = False
+    v.check('sink-of-the-wrong-flavour-rejected', (out.exc is not None and out.exc.isa(CompatibilityError)) if rejected else out.exc is None)
+    if out.exc is not None:
+        t.check_untouched()
+        v.cover('rejected')
+        return
+    # the entry that must now head the sinks table
+    pattern = re.compile('/' if prefix is None else prefix) if pk != 2 else prefix
+    head = t.now('_sinks')
+    entry = _head(v, t, '_sinks')
+    v.check('new-sink-entry-is-pattern-sink-true',
+            isinstance(entry, tuple) and len(entry) == 3 and _same_value(entry[0], pattern) and entry[2] is True
+            and (_is_wrapped(v, entry[1], sink) if wrapped else entry[1] is sink))
+    if not isinstance(entry, tuple):
+        return
+    t.check_step(t.cat(t.unit(entry), t.S0), t.T0)
+    v.cover('registered')
+
+
+def _head(v, t, field):
+    """The entry at index 0 of a table after the step (None when that is not a freshly created entry)."""
+    x = v.get(t.app, field)
+    if v.concrete:
+        return x[0] if x else None
+    import z3
+
+    if not isinstance(x, GList):
+        return None
+    h = z3.simplify(x.seq[0])
+    if z3.is_int_value(h) and h.as_long() < 0 and -h.as_long() <= len(t.world.vals):
+        return t.world.vals[-h.as_long() - 1]
+    # not syntactically at the head: the only created entry (the ordering clause then fails)
+    return t.world.vals[0] if len(t.world.vals) == 1 else None
+
+
+def _is_wrapped(v, got, sink):
+    if v.concrete:
+        import inspect
+
+        return inspect.iscoroutinefunction(got) and getattr(got, '__wrapped__', None) is sink
+    return isinstance(got, Wrapped) and got.inner is sink
+
+
+for _a in (0, 1):
+    harness(PROP, (AAPP if _a else APP) + '.add_sink', name='add_sink[asgi=%d]' % _a, setup=_tables_setup, fix={'asgi-app?': _a},
+            inline=[APP + '.add_sink', APP + '._update_sink_and_static_routes'])(add_sink)
+
+
+def add_static_route(v):
+    asgi = v.choose(2, 'asgi-app?')
+    t = Tables(v, asgi)
+    downloadable = bool(v.choose(2, 'downloadable?'))
+    prefix, directory = '/static/', '/var/tmp'
+    out = v.call(t.app, prefix, directory, downloadable=downloadable)
+    v.check('no-exception', out.exc is None)
+    if out.exc is not None:
+        return
+    entry = _head(v, t, '_static_routes')
+    SR = v.real('falcon.routing.static:StaticRouteAsync' if asgi else 'falcon.routing.static:StaticRoute')
+    ok = isinstance(entry, tuple) and len(entry) == 3 and entry[0] is entry[1] and entry[2] is False
+    if ok:
+        sr = entry[0]
+        if v.concrete:
+            ok = type(sr) is SR and sr._prefix == prefix and sr._directory == directory and sr._downloadable == downloadable and sr._fallback_filename is None
+        else:
+            ok = getattr(sr, '_cls', None) is SR and sr._fields.get('init_args') == (prefix, directory, downloadable, None)
+    v.check('new-static-entry-is-route-route-false', ok)
+    if not isinstance(entry, tuple):
+        return
+    t.check_step(t.S0, t.cat(t.unit(entry), t.T0))
+    v.cover('registered')
+
+
+harness(PROP, APP + '.add_static_route', setup=_tables_setup, inline=[APP + '._update_sink_and_static_routes'])(add_static_route)
+
+
+@harness(PROP, APP + '._update_sink_and_static_routes', setup=_tables_setup)
+def update_tables(v):
+    t = Tables(v, v.choose(2, 'asgi-app?'))
+    out = v.call(t.app)
+    v.check('no-exception', out.exc is None)
+    if out.exc is None:
+        t.check_step(t.S0, t.T0)
+
+
 KILLS = [
     # the scan no longer stops at the first (most recent) match
     ('falcon/app.py', '                    responder = obj\n\n                    break\n', '                    responder = obj\n', '_get_responder#fallback-is-first-matching-entry'),
